@@ -455,3 +455,28 @@ package security
 //@   ensures negotiation_on_success: err == nil ==> result != nil
 //@   ensures full_reports_real: [C03] err == nil && !result.SessionResumed ==> result.Encryption == (a.stream.gcm != nil)
 //@   ensures resumed_is_keyed: [C06] err == nil && result.SessionResumed ==> a.stream.gcm != nil && result.Encryption
+
+// ---- filesystem authentication, client side (C18) ------------------------------------------------
+//@ func validateFSAuthPath (dirPath, remote, peerAddr) (result, err)
+//@   props C18
+//@   assigns nothing
+//@   ensures directly_under_base: [C18] err == nil ==> dirPath != "" && IsAbs(dirPath) && Clean(dirPath) == dirPath && Dir(dirPath) == "/tmp" && result == Base(dirPath)
+//@   ensures single_safe_component: [C18] err == nil ==> result != "." && result != ".."
+//@   ensures rejected_has_no_leaf: [C18] err != nil ==> result == ""
+
+//@ func (*Authenticator).performFSAuthenticationClient (a, ctx, negotiation, remote) (err)
+//@   props C18
+//@   requires given: a.stream != nil
+//@   assert before call os.OpenRoot #1 base_dir_only: [C18] arg0 == "/tmp"
+//@   assert before call os.Root).Mkdir #1 validated_leaf_only: [C18] arg1 == leaf && rootDir(arg0) == "/tmp"
+//@   ensures at_most_one_directory: [C18] fsMkdirs <= old(fsMkdirs) + 1
+//@   ensures only_under_base: [C18] fsMkdirs > old(fsMkdirs) ==> fsLastMkdirRoot == "/tmp"
+//@   ensures created_is_removed: [C18] fsMkdirs > old(fsMkdirs) ==> fsRemoves == old(fsRemoves) + 1 && fsLastRemove == fsLastMkdir && fsLastRemoveRoot == fsLastMkdirRoot
+//@   ensures nothing_else_removed: [C18] fsMkdirs == old(fsMkdirs) ==> fsRemoves == old(fsRemoves)
+
+//@ func fsAddrLeaf (leaf, remote) (ip, port, ok)
+//@   props C18
+//@   assigns nothing
+//@ func verifyFSPathEndpoint (nameIP, namePort, peerAddr) (err)
+//@   props C18
+//@   assigns nothing
